@@ -428,3 +428,124 @@ Definition expected_sps (beyond : bool) (v : sps_syntax) : sps :=
   expected_sps_gen z_as_uint
     (nbytes_at (raw_sps v) (sps_bits_before_vui v)) (nbytes_at (raw_sps v) (sps_bits_read beyond v))
     beyond v.
+
+(* ------------------------------------------------------------------ pic_parameter_set_rbsp (7.3.2.2) *)
+Record pps_syntax := mkPpsSyn {
+  pps_nal_ref_idc : N;
+  pic_parameter_set_id : N; pps_seq_parameter_set_id : N;
+  entropy_coding_mode_flag : bool; bottom_field_pic_order_in_frame_present_flag : bool;
+  num_slice_groups_minus1 : N; slice_group_map_type : N;
+  run_length_minus1 : list N;                           (* type 0: num_slice_groups_minus1 + 1 entries *)
+  top_left_bottom_right : list (N * N);                 (* type 2: num_slice_groups_minus1 entries *)
+  slice_group_change_direction_flag : bool; slice_group_change_rate_minus1 : N;   (* types 3..5 *)
+  slice_group_id : list N;                              (* type 6: pic_size_in_map_units_minus1 + 1 entries *)
+  num_ref_idx_l0_default_active_minus1 : N; num_ref_idx_l1_default_active_minus1 : N;
+  weighted_pred_flag : bool; weighted_bipred_idc : N;
+  pic_init_qp_minus26 : Z; pic_init_qs_minus26 : Z; chroma_qp_index_offset : Z;
+  deblocking_filter_control_present_flag : bool; constrained_intra_pred_flag : bool;
+  redundant_pic_cnt_present_flag : bool;
+  pps_has_tail : bool;                                  (* the part guarded by more_rbsp_data() is present *)
+  transform_8x8_mode_flag : bool; pic_scaling_matrix_present_flag : bool;
+  pic_scaling_lists : list (option (list Z));
+  second_chroma_qp_index_offset : Z }.
+
+(* u(v) width of slice_group_id: Ceil(Log2(num_slice_groups_minus1 + 1)) *)
+Definition slice_group_id_bits (v : pps_syntax) : N := N.log2_up (num_slice_groups_minus1 v + 1).
+
+Definition ser_pps_slice_groups (v : pps_syntax) : list bool :=
+  opt_bits (0 <? num_slice_groups_minus1 v)
+    (ue_bits (slice_group_map_type v)
+     ++ (if slice_group_map_type v =? 0 then flat_map ue_bits (run_length_minus1 v)
+         else if slice_group_map_type v =? 2
+         then flat_map (fun p => ue_bits (fst p) ++ ue_bits (snd p)) (top_left_bottom_right v)
+         else if (slice_group_map_type v =? 3) || (slice_group_map_type v =? 4) || (slice_group_map_type v =? 5)
+         then fl (slice_group_change_direction_flag v) ++ ue_bits (slice_group_change_rate_minus1 v)
+         else if slice_group_map_type v =? 6
+         then ue_bits (lenN (slice_group_id v) - 1)      (* pic_size_in_map_units_minus1 *)
+              ++ flat_map (u (slice_group_id_bits v)) (slice_group_id v)
+         else [])).
+
+(* everything before more_rbsp_data() *)
+Definition ser_pps_pre (v : pps_syntax) : list bool :=
+  ue_bits (pic_parameter_set_id v) ++ ue_bits (pps_seq_parameter_set_id v)
+  ++ fl (entropy_coding_mode_flag v) ++ fl (bottom_field_pic_order_in_frame_present_flag v)
+  ++ ue_bits (num_slice_groups_minus1 v)
+  ++ ser_pps_slice_groups v
+  ++ ue_bits (num_ref_idx_l0_default_active_minus1 v) ++ ue_bits (num_ref_idx_l1_default_active_minus1 v)
+  ++ fl (weighted_pred_flag v) ++ u 2 (weighted_bipred_idc v)
+  ++ se_bits (pic_init_qp_minus26 v) ++ se_bits (pic_init_qs_minus26 v) ++ se_bits (chroma_qp_index_offset v)
+  ++ fl (deblocking_filter_control_present_flag v) ++ fl (constrained_intra_pred_flag v)
+  ++ fl (redundant_pic_cnt_present_flag v).
+
+Definition ser_pps_tail (v : pps_syntax) : list bool :=
+  fl (transform_8x8_mode_flag v) ++ fl (pic_scaling_matrix_present_flag v)
+  ++ opt_bits (pic_scaling_matrix_present_flag v) (ser_scaling_lists (pic_scaling_lists v))
+  ++ se_bits (second_chroma_qp_index_offset v).
+
+Definition ser_pps (v : pps_syntax) : list bool :=
+  ser_pps_pre v ++ opt_bits (pps_has_tail v) (ser_pps_tail v).
+
+Definition raw_pps (v : pps_syntax) : list N := raw_nalu (pps_nal_ref_idc v) 8 (ser_pps v).
+Definition nalu_pps (v : pps_syntax) : list N := nalu_of (pps_nal_ref_idc v) 8 (ser_pps v).
+
+(* number of pic scaling lists: 6 + ((chroma_format_idc != 3) ? 2 : 6) * transform_8x8_mode_flag *)
+Definition pps_nr_scaling_lists (chroma : N) (v : pps_syntax) : N :=
+  6 + (if transform_8x8_mode_flag v then (if chroma =? 3 then 6 else 2) else 0).
+
+Definition se_ok (k : Z) : bool := int32_ok k.
+
+(* chroma = chroma_format_idc of the SPS the PPS refers to *)
+Definition pps_valid (chroma : N) (v : pps_syntax) : bool :=
+  (pps_nal_ref_idc v <? 4) && (pic_parameter_set_id v <=? 255) && (pps_seq_parameter_set_id v <=? 31)
+  && (num_slice_groups_minus1 v <=? 7)
+  && (if 0 <? num_slice_groups_minus1 v
+      then (slice_group_map_type v <=? 6)
+           && (if slice_group_map_type v =? 0
+               then (lenN (run_length_minus1 v) =? num_slice_groups_minus1 v + 1)
+                    && forallb ue_ok (run_length_minus1 v) else true)
+           && (if slice_group_map_type v =? 2
+               then (lenN (top_left_bottom_right v) =? num_slice_groups_minus1 v)
+                    && forallb (fun p => ue_ok (fst p) && ue_ok (snd p)) (top_left_bottom_right v) else true)
+           && ue_ok (slice_group_change_rate_minus1 v)
+           && (if slice_group_map_type v =? 6
+               then (1 <=? lenN (slice_group_id v)) && (lenN (slice_group_id v) <=? 65536)
+                    && forallb (fun x => x <=? num_slice_groups_minus1 v) (slice_group_id v) else true)
+      else true)
+  && (num_ref_idx_l0_default_active_minus1 v <=? 31) && (num_ref_idx_l1_default_active_minus1 v <=? 31)
+  && (weighted_bipred_idc v <? 4)
+  && se_ok (pic_init_qp_minus26 v) && se_ok (pic_init_qs_minus26 v) && se_ok (chroma_qp_index_offset v)
+  && (if pps_has_tail v
+      then (if pic_scaling_matrix_present_flag v
+            then (lenN (pic_scaling_lists v) =? pps_nr_scaling_lists chroma v)
+                 && scaling_lists_valid 0 (pic_scaling_lists v)
+            else true)
+           && se_ok (second_chroma_qp_index_offset v)
+      else true).
+
+Definition expected_pps (v : pps_syntax) : pps :=
+  let sg := 0 <? num_slice_groups_minus1 v in
+  let mt := if sg then slice_group_map_type v else 0 in
+  let t0 := sg && (mt =? 0) in
+  let t2 := sg && (mt =? 2) in
+  let t345 := sg && ((mt =? 3) || (mt =? 4) || (mt =? 5)) in
+  let t6 := sg && (mt =? 6) in
+  let tl := pps_has_tail v in
+  let spf := tl && pic_scaling_matrix_present_flag v in
+  mkPps (pic_parameter_set_id v) (pps_seq_parameter_set_id v)
+        (entropy_coding_mode_flag v) (bottom_field_pic_order_in_frame_present_flag v)
+        (num_slice_groups_minus1 v) mt
+        (if t0 then run_length_minus1 v else [])
+        (if t2 then map fst (top_left_bottom_right v) else [])
+        (if t2 then map snd (top_left_bottom_right v) else [])
+        (t345 && slice_group_change_direction_flag v)
+        (if t345 then slice_group_change_rate_minus1 v else 0)
+        (if t6 then lenN (slice_group_id v) - 1 else 0)
+        (if t6 then slice_group_id v else [])
+        (num_ref_idx_l0_default_active_minus1 v) (num_ref_idx_l1_default_active_minus1 v)
+        (weighted_pred_flag v) (weighted_bipred_idc v)
+        (pic_init_qp_minus26 v) (pic_init_qs_minus26 v) (chroma_qp_index_offset v)
+        (deblocking_filter_control_present_flag v) (constrained_intra_pred_flag v)
+        (redundant_pic_cnt_present_flag v)
+        (tl && transform_8x8_mode_flag v) spf
+        (if spf then expected_scaling_lists 0 (pic_scaling_lists v) else [])
+        (if tl then second_chroma_qp_index_offset v else 0%Z).
